@@ -65,7 +65,10 @@ def unary_cases(p):
 
 
 COMP_POOL = ["", "", ".", ".", "..", "..", "..", "a", "b", "a", "b", "c", "..a", "a..", "...", ".a", "a.", "x.y", "dir",
-             "-", "a b", "%41", "\t", "..\x01", "\xe4", "....", ". ", " .."]
+             "-", "a b", "%41", "\t", "..\x01", "\xe4", "....", ". ", " ..", "lib", "lib64", "li", "lib", "usr", "us", "\x00", "a\x00b", "..\x00"]
+# component names that are prefixes of one another (character-level common prefix ends inside a component)
+NAME_POOL = ["lib", "lib64", "li", "..", "."]
+CONTAINERS = ["vec", "list", "sv", "deque"]
 
 
 def rand_path(rng, maxc=10):
@@ -118,6 +121,25 @@ def fmt_cases(ctx, rng):
             ex = f % float(v)
             if len(ex) == L:
                 cases.append("format %s f %s %s" % (esc(f), v, esc(ex)))
+    # further argument kinds / several arguments / the error path
+    def pyfmt(f):
+        return f.replace("ll", "").replace("z", "").replace("lu", "u")
+    for f, k, v in [("%lld", "lld", -2**63), ("%lld", "lld", 2**63 - 1), ("%20lld|", "lld", 42), ("%lu", "lu", 2**64 - 1), ("%zu", "zu", 0),
+                    ("%zu", "zu", 2**64 - 1), ("%c", "ch", 122), ("[%c]", "ch", 37)]:
+        ex = pyfmt(f) % (chr(v) if k == "ch" else v)
+        cases.append("format %s %s %d %s" % (esc(f), k, v, esc(ex)))
+    for L in [0, 1, B - 12, B - 11, B - 10, B - 9, 3 * B]:
+        w = max(L, 1)
+        f = "%%%d.2f:%%d" % w
+        ex = f % (2.5, -17)
+        cases.append("format %s fd %s %s" % (esc(f), esc("2.5,-17"), esc(ex)))
+        f = "%%s=%%0%dd;%%s" % w
+        ex = f % ("key", 12, "tail")
+        cases.append("format %s sds %s %s" % (esc(f), esc("key,12,tail"), esc(ex)))
+    # a wide character that cannot be converted in the "C" locale: snprintf returns a negative value
+    cases.append("format %s lc %d !" % (esc("%lc"), 0x20AC))
+    cases.append("format %s lc %d !" % (esc("abc%lcdef"), 0x10FFFF))
+    cases.append("format %s lc %d %s" % (esc("%lc"), 65, esc("A")))
     for f, k, v in [("%d", "d", 0), ("%5d|%-5d|", None, None), ("%x", "u", 255), ("%08.3f", "f", "3.14159"), ("%e", "f", "12345.678"),
                     ("%g", "f", "0.0001"), ("%ld", "ld", -2**62), ("%c", "c", 65), ("%%", "none", None), ("plain text", "none", None),
                     ("", "none", None), ("%u", "u", 4294967295), ("%+d", "d", 5), ("%o", "u", 8), ("%10.4s|", "s", "abcdefgh")]:
@@ -161,6 +183,27 @@ def gen(ctx):
         for b in es3:
             cases.append("prefix %s %s" % (a, b))
             cases.append("suffix %s %s" % (a, b))
+    # exhaustive pairs of paths with up to 3 (thorough: 4) components from NAME_POOL, same absoluteness
+    L4 = 3 if quick else 4
+    npaths = ["/".join(t) for l in range(L4 + 1) for t in itertools.product(NAME_POOL, repeat=l)]
+    for lead in ("", "/"):
+        ps = [esc(lead + q) for q in npaths]
+        for a in ps:
+            for b in ps:
+                cases.append("relpath %s %s" % (a, b))
+    for q in npaths:
+        cases += unary_cases(q) + unary_cases("/" + q + "/")
+    # other character containers for hasPrefix/hasSuffix, const char* arguments with an embedded NUL
+    es5 = [esc(s) for s in strings_upto(3, "/.a")]
+    for k in CONTAINERS:
+        for a in es5:
+            for b in es5:
+                cases.append("prefix_%s %s %s" % (k, a, b))
+                cases.append("suffix_%s %s %s" % (k, a, b))
+    for k in [""] + ["_" + c for c in CONTAINERS]:
+        for a, b in [("ab", "a\x00zz"), ("ab", "\x00"), ("", "\x00a"), ("a\x00b", "a"), ("a\x00b", "b"), ("ab", "b\x00b"), ("a\x00", "a\x00")]:
+            cases.append("prefix%s %s %s" % (k, esc(a), esc(b)))
+            cases.append("suffix%s %s %s" % (k, esc(a), esc(b)))
     # seeded long paths
     rng = ctx.rng("gen")
     N = 1500 if quick else 30000
@@ -184,18 +227,19 @@ def gen(ctx):
         cases.append("relpath %s %s" % (esc(a), esc(b)))
         cases.append("concat %s %s" % (esc(a), esc(b)))
         x = rng.choice([a[:rng.randrange(len(a) + 1)], a[rng.randrange(len(a) + 1):], b[:3], "/", "..", ""])
-        cases.append("prefix %s %s" % (esc(a), esc(x)))
-        cases.append("suffix %s %s" % (esc(a), esc(x)))
+        k = rng.choice(["", "_vec", "_list", "_sv", "_deque"])
+        cases.append("prefix%s %s %s" % (k, esc(a), esc(x)))
+        cases.append("suffix%s %s %s" % (k, esc(a), esc(x)))
     cases += fmt_cases(ctx, rng)
-    return cases, ncorpus, (L1, L2, L3, N)
+    return cases, ncorpus, (L1, L2, L3, N, L4)
 
 
 def nontrivial(case):
     t = case.split()
     if t[0] == "format":
-        return len(unesc(t[4])) >= bufsize() - 2
+        return t[4] == "!" or len(unesc(t[4])) >= bufsize() - 2
     args = [unesc(x) for x in t[1:] if x.startswith(":")]
-    if t[0] in ("prefix", "suffix"):
+    if t[0].startswith("prefix") or t[0].startswith("suffix"):
         return len(args) == 2 and len(args[1]) > 0 and len(args[0]) >= len(args[1])
     for a in args:
         cs = a.split("/")
@@ -232,7 +276,7 @@ def run(ctx):
     V.coq_stage(ctx)
     model = V.build_model(ctx)
     impl, impl_san = build(ctx, san=True)
-    cases, ncorpus, (L1, L2, L3, N) = gen(ctx)
+    cases, ncorpus, (L1, L2, L3, N, L4) = gen(ctx)
     ctx.log("generated %d cases" % len(cases))
     io, mo = run_pair(ctx, model, impl, cases, "")
     ctx.log("impl and model ran")
@@ -282,10 +326,11 @@ def run(ctx):
         "evaluations": len(cases), "distinct_nontrivial": ntc,
         "rule": "cases = corpus (documented tables, pathtest.cc) + ALL strings over {'/','.','a','b'} of length <= %d x {processPath (+ second application), "
                 "prettyPath(.,0), prettyPath(.,1), prettyPath(.), pathIndicatesDirectory} + ALL pairs of such strings of length <= %d x {concatPaths, relativePath} "
-                "+ all pairs over {'/','.','a'} of length <= %d x {hasPrefix, hasSuffix} + %d seeded long paths / related pairs from a component pool "
+                "+ all pairs over {'/','.','a'} of length <= %d x {hasPrefix, hasSuffix} (std::string; length <= 3 also for vector/list/deque<char> and string_view, "
+                "plus const char* arguments with an embedded NUL) + ALL same-absoluteness pairs of paths with <= %d components from {lib, lib64, li, .., .} x relativePath + %d seeded long paths / related pairs from a component pool "
                 "(incl. '..a', '...', blanks, control and 8-bit characters) + formatString expansions of lengths around the buffer size %d; "
                 "non-trivial = some path argument has a '.', '..' or empty inner component (normalisation has work to do) / the suffix-prefix argument is "
-                "non-empty and not longer than the string / the format expansion is >= bufferSize-2 long; distinct = distinct case lines" % (L1, L2, L3, N, B),
+                "non-empty and not longer than the string / the format expansion is >= bufferSize-2 long; distinct = distinct case lines" % (L1, L2, L3, L4, N, B),
         "samples": cases[:3] + cases[ncorpus + 40000: ncorpus + 40003] + cases[len(cases) // 2: len(cases) // 2 + 2] + cases[-400:-398] + [c[:120] for c in cases[-2:]],
         "op_distribution": ops, "impl_model_disagreements": ndis, "oracle_rejections": nviol, "oracle_rejection_kinds": verdicts,
         "sanitizer_cases": len(sub), "exhaustive": False,
